@@ -305,9 +305,9 @@ class Proj:
                 inh = x.start
                 x = x.parent
             deps = [{"p": tix[id(d[0])], "onstart": bool(d[1]), "gap": int(d[2]), "clone": False, "maxgap": False,
-                     "gaplen": bool(len(d) > 3 and d[3])} for d in t.deps]
+                     "gaplen": bool(len(d) > 3 and d[3]), "glen": int(d[3] // 3600) if (len(d) > 3 and d[3]) else 0} for d in t.deps]
             for src in prec.get(id(t), []):
-                e = {"p": tix[id(src)], "onstart": False, "gap": 0, "clone": False, "maxgap": False, "gaplen": False}
+                e = {"p": tix[id(src)], "onstart": False, "gap": 0, "clone": False, "maxgap": False, "gaplen": False, "glen": 0}
                 if not any(d["p"] == e["p"] for d in deps):
                     deps.append(e)
             own_start = ov.get("start", t.start)
